@@ -729,6 +729,19 @@ func c16Run(c *core.Ctx) {
 }
 
 func c16Replay(c *core.Ctx, payload json.RawMessage) {
+	var np struct {
+		Family                      string `json:"family"`
+		Outer, Block, Inner, Probe int
+	}
+	if json.Unmarshal(payload, &np) == nil && np.Family == "nested" {
+		p := c16NestedProgram(np.Outer, np.Block, np.Inner, np.Probe)
+		env := drv.NewText(core.Scratch("c16nested"))
+		env.Tx.Flags.SetQuiet(true)
+		r := env.Exec(p.sql)
+		env.Close()
+		fmt.Printf("replaying nested-cursor program:\n%s\nprinted %v, error %v\nexpected %v, error containing %q\n", p.sql, strings.Fields(r.Out), r.Err, p.want, p.wantErr)
+		return
+	}
 	var p c16Payload
 	if err := json.Unmarshal(payload, &p); err != nil {
 		fmt.Println("bad payload:", err)
